@@ -632,7 +632,14 @@ impl Python {
                 RustEnumVariant::Tuple { shared, .. } => shared.id.renamed.clone(),
                 RustEnumVariant::AnonymousStruct { shared, .. } => shared.id.renamed.clone(),
             })
-            .map(|name| (name.to_case(Case::Snake).to_uppercase(), name))
+            .map(|name| {
+                let mut member = name.to_case(Case::Snake).to_uppercase();
+                // an enum member cannot start with a digit (`#[serde(rename = "1st")]`)
+                if member.chars().next().is_some_and(|c| c.is_ascii_digit()) {
+                    member.insert(0, '_');
+                }
+                (member, name)
+            })
             .collect::<Vec<(String, String)>>();
         let enum_type_class_name = format!("{}Types", shared.id.renamed);
         self.add_import("enum".to_string(), "Enum".to_string());
